@@ -35,7 +35,9 @@ CYCLES = ("pipe-open-close pipe-roundtrip pipe-drop unix-socket spawn-wait spawn
           "read-timeout deadline-no-fire deadline-fire go-error-supervisor spawn-finish file-open-close file-drop "
           "parser-peg sleep lock spawn-err-pipe spawn-all-pipes thread-call-cancelled thread-call-deadline "
           "proc-wait-cancelled read-cancelled write-cancelled sleep-cancelled connect-refused connect-accept-tcp").split()
-FIELDS = ["fds", "children", "threads", "root-count", "block-count", "tq-count", "listener-count"]
+FIELDS = ["fds", "children", "threads", "root-count", "block-count", "tq-count", "listener-count", "fds-before-gc"]
+# cycles that deliberately drop an open handle and leave closing it to the collector
+GC_CLOSES = {"pipe-drop", "file-drop", "spawn-drop"}
 
 # ------------------------------------------------------------------ termination programs
 
@@ -225,6 +227,21 @@ def run_steady(chk, scratch):
         s0, s1, s2, s4 = canonparse.parse(text)
         chk.outcome((name, tuple(s4)))
         for i, field in enumerate(FIELDS):
+            if field == "fds-before-gc":
+                # every snapshot ends with a collection, so descriptors that only a finalizer releases show up as the
+                # difference between the count before and after the collection of the same snapshot: n rounds were run
+                # before s1 and s2, 2n before s4. Cycles that drop an open handle on purpose are exempt.
+                if a in GC_CLOSES or b in GC_CLOSES:
+                    continue
+                h1, h2, h4 = s1[i] - s1[0], s2[i] - s2[0], s4[i] - s4[0]
+                if h1 >= n // 2 and h2 >= n // 2 and h4 >= n:
+                    chk.violation("leak:fds-held-until-collection:%s" % name,
+                                  "cycle %s closes everything it was given, yet descriptors stay open until a collection "
+                                  "and their number grows with the repetitions: %d after %d rounds, %d after %d, %d after %d" % (
+                                      name, h1, n, h2, n, h4, 2 * n),
+                                  "# repeat the cycle `%s` from props/C20/driver_steady.janet without collecting and watch "
+                                  "(verif/vm-info) :fds\n" % name)
+                continue
             d1, d2 = s2[i] - s1[i], s4[i] - s2[i]
             # proportional growth at two scales = a per-cycle leak (n and 2n further repetitions)
             if d1 >= n // 2 and d2 >= n:
